@@ -148,6 +148,41 @@ fn real_main(cmd: &str, args: &Args) -> i32 {
     }
 }
 
+static RUN_STARTED_MS: std::sync::atomic::AtomicU64 = std::sync::atomic::AtomicU64::new(0);
+
+/// In-process watchdog: a run that does not finish within the limit aborts the
+/// worker (the supervisor reads the progress marker and classifies the run as
+/// `watchdog`). Real time is used only to give up, never to decide a verdict.
+fn start_watchdog(limit_s: u64) {
+    let t0 = std::time::Instant::now();
+    RUN_STARTED_MS.store(0, std::sync::atomic::Ordering::Relaxed);
+    std::thread::spawn(move || loop {
+        std::thread::sleep(std::time::Duration::from_millis(250));
+        let started = RUN_STARTED_MS.load(std::sync::atomic::Ordering::Relaxed);
+        if started == 0 {
+            continue;
+        }
+        let now = t0.elapsed().as_millis() as u64 + 1;
+        if now > started + limit_s * 1000 {
+            eprintln!("WATCHDOG: run exceeded {} s", limit_s);
+            std::process::exit(86);
+        }
+    });
+    WATCHDOG_T0.with(|c| *c.borrow_mut() = Some(t0));
+}
+
+thread_local! {
+    static WATCHDOG_T0: std::cell::RefCell<Option<std::time::Instant>> = std::cell::RefCell::new(None);
+}
+
+fn watchdog_mark_start() {
+    WATCHDOG_T0.with(|c| {
+        if let Some(t0) = *c.borrow() {
+            RUN_STARTED_MS.store(t0.elapsed().as_millis() as u64 + 1, std::sync::atomic::Ordering::Relaxed);
+        }
+    });
+}
+
 fn batch(args: &Args) -> i32 {
     let engine = args.pos.get(1).cloned().unwrap_or_default();
     let seed = args.u64("seed", 1);
@@ -158,8 +193,10 @@ fn batch(args: &Args) -> i32 {
     alloc::set_limit(args.u64("mem-limit-mb", 1024) << 20);
     let mut cur = std::fs::File::create(format!("{}.cur", out)).expect("progress file");
     let mut agg = Agg::default();
+    let mut per_key: BTreeMap<String, u32> = BTreeMap::new();
     let t0 = std::time::Instant::now();
     let mut ctx = engines::Ctx::new(args);
+    start_watchdog(args.u64("run-timeout-s", 20));
     let mut trace: Option<std::fs::File> = None;
     let mut hashes: Option<std::fs::File> = if args.u64("hashes", 0) == 1 {
         Some(std::fs::File::create(format!("{}.hashes", out)).expect("hash file"))
@@ -171,6 +208,7 @@ fn batch(args: &Args) -> i32 {
         let _ = cur.write_all(format!("{:>20}\n", i).as_bytes());
         let run_seed = rng::derive_n(seed, &engine, i);
         ctx.cur_index = i;
+        watchdog_mark_start();
         let res = engines::run_one(&engine, run_seed, &mut ctx);
         agg.add(&res.stats);
         agg.add_counts(&res.counts);
@@ -188,9 +226,15 @@ fn batch(args: &Args) -> i32 {
                 "faults": res.stats.faults, "events": res.stats.events}));
         }
         for (v, sc) in res.violations {
-            agg.violations.push(json!({"index": i, "run_seed": run_seed, "violation": v, "scenario": sc}));
+            // a few examples per site are enough (the first one is minimised and reported)
+            let n = per_key.entry(v.key()).or_insert(0u32);
+            *n += 1;
+            if *n <= 3 {
+                agg.violations.push(json!({"index": i, "run_seed": run_seed, "violation": v, "scenario": sc}));
+            }
         }
     }
+    RUN_STARTED_MS.store(0, std::sync::atomic::Ordering::Relaxed);
     let wall = t0.elapsed().as_secs_f64();
     let mut digests: Vec<u64> = agg.digests.iter().cloned().collect();
     digests.sort();
@@ -241,6 +285,8 @@ fn replay(args: &Args) -> i32 {
         }
     };
     alloc::set_limit(args.u64("mem-limit-mb", 1024) << 20);
+    start_watchdog(args.u64("run-timeout-s", 20));
+    watchdog_mark_start();
     let mut ctx = engines::Ctx::new(args);
     let engine = v["engine"].as_str().unwrap_or("").to_string();
     let got = engines::replay_one(&engine, &v["scenario"], &mut ctx);
@@ -293,6 +339,8 @@ fn one(args: &Args) -> i32 {
     if let Some(t) = args.opt.get("trace") {
         simenv::set_trace(t);
     }
+    start_watchdog(args.u64("run-timeout-s", 20));
+    watchdog_mark_start();
     let run_seed = rng::derive_n(seed, &engine, index);
     ctx.cur_index = index;
     let res = engines::run_one(&engine, run_seed, &mut ctx);
